@@ -54,6 +54,30 @@ def limitSignal (times : List Rat) (start stop : Option Rat) : List Nat :=
   let idx := match start with | some a => idx.filter (fun i => Slots.sigLoCmp.evalRat (times.getD i 0) a) | none => idx
   match stop with | some b => idx.filter (fun i => Slots.sigHiCmp.evalRat (times.getD i 0) b) | none => idx
 
+/-! ## Specifications (C13, C18) -/
+
+/-- number of epochs: `len(np.arange(L, sig_len + L, L))`. -/
+def nEpochs (sigLen epochLen : Nat) : Nat := (sigLen + epochLen - 1) / epochLen
+
+/-- C13: epoch `e` holds exactly the rows whose closing side extremum lies in `(e·L, (e+1)·L]`, in the
+original order, feature values untouched, sample indices shifted by `e·L`. -/
+def epochSpec {P} (rows : List (FRow P)) (sigLen L : Nat) : List (List (FRow P)) :=
+  (List.range (nEpochs sigLen L)).map fun e =>
+    (rows.filter fun r => decide (((e * L : Nat) : Int) < r.s.nextTrough) && decide (r.s.nextTrough ≤ (((e + 1) * L : Nat) : Int))).map
+      fun r => r.shift ((e * L : Nat) : Int)
+
+/-- C18: `limit_df` keeps, in order, the rows with `last side ≥ start·fs` and `next side ≤ stop·fs`. -/
+def limitSpec {P} (rows : List (FRow P)) (fsStart : Rat) (fsStop : Option Rat) (off : Int) (reset : Bool) : List (FRow P) :=
+  let kept := rows.filter fun r => decide (fsStart ≤ (r.s.lastTrough : Rat)) &&
+    (match fsStop with | some st => decide ((r.s.nextTrough : Rat) ≤ st) | none => true)
+  if reset then kept.map (·.shift off) else kept
+
+/-- C18: `limit_signal` keeps exactly the samples with `start ≤ t < stop`. -/
+def limitSignalSpec (times : List Rat) (start stop : Option Rat) : List Nat :=
+  (List.range times.length).filter fun i =>
+    (match start with | some a => decide (a ≤ times.getD i 0) | none => true) &&
+    (match stop with | some b => decide (times.getD i 0 < b) | none => true)
+
 /-- `drop_samples_df`: column names that remain; `split_samples_df`: (rest, sample columns). -/
 def dropSamples (cols : List String) : List String := cols.filter fun c => !c.startsWith "sample_"
 def splitSamples (cols : List String) : List String × List String :=
